@@ -30,6 +30,10 @@ structure DateFields where
   tz : Option Int := none
 deriving DecidableEq, Repr
 
+/-- the fraction of the seconds in microseconds, cut (not rounded) after the sixth digit: the first six fraction digits,
+padded with zeros on the right (XSD requires only milliseconds; finer digits are an implementation-defined precision) -/
+def microTrunc (frac : Str) : Nat := digitSeqVal ((frac ++ List.replicate 6 '0').take 6) 0
+
 /-- yearFrag at the head of the literal: its numeric value (noDecimalMap) and the rest -/
 def yearFrag? (t : Str) : Option (Int × Str) :=
   let r := stripMinus t
@@ -69,6 +73,12 @@ def dateLex (v11 : Bool) (t : Str) : Option DateFields :=
     | _, _ => none
   | _ => none
 
+/-- the hour of the time-of-day text `r` accepted by `timeLex` with result `g`: `timeLex` reports an endOfDayFrag as 00:00:00 -/
+def hourOf (r : Str) (g : GVal) : Nat :=
+  match r with
+  | '2' :: '4' :: _ => 24
+  | _ => g.hour
+
 /-- the time of day and the timezone are `timeLex` (XSDLexical.lean: hourFrag ':' minuteFrag ':' secondFrag or
 endOfDayFrag, then timezoneFrag?); an end-of-day literal is reported with hour 24 -/
 def dateTimeLex (v11 : Bool) (t : Str) : Option DateFields :=
@@ -78,7 +88,7 @@ def dateTimeLex (v11 : Bool) (t : Str) : Option DateFields :=
     | some y, some g =>
       if monthFragOk a b && dayFragOk c d && decide ((fragVal c d : Int) ≤ Timeline.monthLen y (fragVal a b)) then
         some { year := y, month := fragVal a b, day := fragVal c d,
-               hour := (match r with | '2' :: '4' :: _ => 24 | _ => g.hour), minute := g.minute, second := g.second,
+               hour := hourOf r g, minute := g.minute, second := g.second,
                frac := g.frac, tz := g.tz }
       else none
     | _, _ => none
